@@ -1,7 +1,7 @@
 """C10 - rpx conversion is arithmetically right; other numbers keep their value (structural half)."""
 from rules import csspacks as cp
 
-RULE = 'C10.route: every dispatch loop routes Dimension tokens through write_maybe_rpx_dimension or is a tabled context. C10.expr: the conversion applies exactly for unit `rpx`, computes value*100/ratio without further rounding, emits value/new int flag/sign/`vw`, re-emits other units unchanged, and the ratio option is never rewritten. C10.int: numeric tokens carrying an integer value are written from that integer, not through the 6-significant-digit f32 printer.'
+RULE = 'C10.int/*/writer: digits come from the bound integer, `+` iff has_sign and the integer is not negative, `-0` kept. C10.rules/not-a-rule-list: no declaration-block at-rule (@page, @font-face, ...) is parsed as a rule list, so its declarations reach the rpx writer. C10.route: every dispatch loop routes Dimension tokens through write_maybe_rpx_dimension or is a tabled context. C10.expr: the conversion applies exactly for unit `rpx`, computes value*100/ratio without further rounding, emits value/new int flag/sign/`vw`, re-emits other units unchanged, and the ratio option is never rewritten. C10.int: numeric tokens carrying an integer value are written from that integer, not through the 6-significant-digit f32 printer.'
 EXPLANATION = ("The token-dispatch loops of the stylesheet compiler are located by role in the expanded syntax tree and their arms, "
                "flags and field writers (MIR) are checked against the rule; no stylesheet is ever transformed.")
 ASSUMPTIONS = ["cssparser tokenises and serialises per CSS Syntax 3", "refs/css_refs.json lists rule-bearing at-rules and math functions correctly",
@@ -14,4 +14,5 @@ def run(ctx):
         return obs
     obs += cp.rpx_rules(ctx, 'C10')
     obs += cp.int_rule(ctx, 'C10')
+    obs += [o for o in cp.rules_rule(ctx, 'C10') if '/not-a-rule-list/' in o['key'] or '/lookup-key' in o['key'] or '/anchor' in o['key']]
     return obs
